@@ -33,7 +33,7 @@ func init() {
 		Run: c11Run,
 		Floors: func(m *Merged, tier string) []string {
 			var u []string
-			for _, c := range []string{"layout_negative_key", "layout_zero_key", "layout_maxkey_254", "layout_maxkey_255", "layout_maxkey_256", "layout_big_key", "layout_undefined_mode", "layout_regvarandop", "layout_prepopulated_then_regvarandop", "fetcher_slice", "fetcher_map", "registrations_checked", "weighted_sums", "ident_probes"} {
+			for _, c := range []string{"layout_negative_key", "layout_zero_key", "layout_maxkey_254", "layout_maxkey_255", "layout_maxkey_256", "layout_big_key", "layout_undefined_mode", "layout_regvarandop", "layout_prepopulated_then_regvarandop", "fetcher_slice", "fetcher_map", "registrations_checked", "weighted_sums", "ident_probes", "bindings_with_unregistered_extras"} {
 				if m.C(c) == 0 {
 					u = append(u, c+" = 0")
 				}
@@ -203,6 +203,14 @@ func c11Run(w *W, idx int) {
 		vals[v.name] = v.val.raw
 		w.Inc("type_" + v.val.typ)
 	}
+	// entries for names no layout registers (and no expression references): they must not disturb anything
+	nExtra := []int{0, 0, 3, 25}[r.Intn(4)]
+	for i := 0; i < nExtra; i++ {
+		vals[fmt.Sprintf("unregistered_extra_%d", i)] = []interface{}{int64(1000 + i), "x", true, int(7)}[r.Intn(4)]
+	}
+	if nExtra > 0 {
+		w.Inc("bindings_with_unregistered_extras")
+	}
 	// the probe expressions
 	var terms []string
 	var wantSum int64
@@ -239,7 +247,9 @@ func c11Run(w *W, idx int) {
 				// a map pre-populated with sparse explicit keys (some for names of the binding, some for others), then RegVarAndOp
 				names := make([]string, 0, len(vals)+4)
 				for n := range vals {
-					names = append(names, n)
+					if !strings.HasPrefix(n, "unregistered_extra_") {
+						names = append(names, n)
+					}
 				}
 				sort.Strings(names)
 				names = append(names, "f0", "f1", "f2", "f3")
@@ -258,11 +268,17 @@ func c11Run(w *W, idx int) {
 			for k, v := range cc.VariableKeyMap {
 				before[k] = v
 			}
-			eval.RegVarAndOp(vals)(cc)
+			realVals := map[string]interface{}{}
+			for n, v := range vals {
+				if !strings.HasPrefix(n, "unregistered_extra_") {
+					realVals[n] = v
+				}
+			}
+			eval.RegVarAndOp(realVals)(cc)
 			hist = append(hist, "RegVarAndOp(vals)")
 			w.Inc("layout_regvarandop")
-			regs = len(vals)
-			for n := range vals {
+			regs = len(realVals)
+			for n := range realVals {
 				if !c11CheckMap(w, before, cc, n, cc.VariableKeyMap[n], strings.Join(hist, " ")) {
 					return
 				}
@@ -271,7 +287,9 @@ func c11Run(w *W, idx int) {
 			// pre-populated map with distinct keys, then registrations in shuffled order
 			names := make([]string, 0, len(vals))
 			for n := range vals {
-				names = append(names, n)
+				if !strings.HasPrefix(n, "unregistered_extra_") {
+					names = append(names, n)
+				}
 			}
 			sort.Strings(names)
 			filler := r.Intn(4)
